@@ -555,7 +555,9 @@ func init() {
 			for _, call := range w.callsMatching(f, `\.WriteSync\(`) {
 				if strings.Contains(w.callStr(call), "EndHeightMessage") || strings.Contains(w.callStr(call), "complit") {
 					n++
-					c.guards(f, call, funcKey(f)+" :: write marker 0", 0, guardCmp("the log is empty", `.*size.*|.*Size\(\).*`, "==", "0"))
+					// F25: "the head file is empty" is not enough — right after a rotation the head is empty and the
+					// rotated files hold the log; a second marker 0 hides the first height's records from replay
+					c.guards(f, call, funcKey(f)+" :: write marker 0", 0, guardCmp("the whole log (all files of the group) is empty", `.*\.ReadGroupInfo\(\)\.TotalSize|.*\.readGroupInfo\(\)\.TotalSize`, "==", "0"))
 				}
 			}
 			c.Check(n == 1, funcKey(f)+" :: an empty log starts with a marker", w.pos(f.Pos()), "one synced marker write", fmt.Sprintf("%d", n))
